@@ -23,7 +23,7 @@ for pid in ALL:
         evidence_file="/verif/evidence/%s.json" % pid,
         replay_cmd_template="./check %s --replay {path}" % pid,
         engine="rocq-proof+correspondence",
-        level_claimed=dict(category="proof", text=P.LEVEL_TEXT, design_ref="DESIGN.md section 6, " + pid),
+        level_claimed=dict(category="proof", text=P.LEVEL_TEXT, design_ref="DESIGN.md section 10.2 (as built) and section 6 (design), " + pid),
         level_note=P.LEVEL_NOTE,
         technique=P.TECHNIQUE,
     ))
